@@ -50,6 +50,16 @@ CLAIMED = {
         technique="Rocq proof (bit-level header lemmas, trace induction with a per-system-id locality lemma, checksum arithmetic) + regenerated constants + in-Coq differential correspondence",
         design="5/C16",
     ),
+    "C04": dict(
+        text="Theorems (Props/C04.v): in-range messages encode to exactly the E37 frame and decode back (C04_frame_exact, C04_frame_roundtrip); for every list "
+             "of valid frames and EVERY partition of their byte stream into segments the receive path delivers exactly those messages in order and ends empty "
+             "and un-parked (C04_reassembly_segmentation_independent), as a corollary of: incremental feeding equals draining the concatenated stream "
+             "(C04_incremental_equals_whole: commutation lemma drain(a ++ s), fuel irrelevance, stability). The model is the sequential behaviour of the "
+             "receiver thread (append, trigger, peek length, wait for the frame, pop, decode, queue); it is tied to the real HsmsProtocol running its own threads.",
+        note=NOTE_COMMON + " Thread interleavings of the TCP thread with the receiver thread are not quantified by the theorem (the rig observes quiescent states only); frames that fail to decode are outside the statement.",
+        technique="Rocq proof (stream/segment commutation lemma + induction over segments and frames) + regenerated constants + in-Coq differential correspondence against the threaded receiver",
+        design="5/C04",
+    ),
 }
 
 NOT_YET = {}
